@@ -28,6 +28,13 @@ CHECKS = {
  'C20': dict(sec='2/C20', tech='exhaustive enumeration of all small lists / multisets / item lists (engine D) against itertools and brute force; explicit-state BFS over call histories on the loaded knapsack module (engine H)',
              text='permutk on every list over {0,1,2} up to length 4/6 and range(n) to 6/8 for every k; nextperm on every permutation and every multiset arrangement; combink for n<=6/7; exactsum/dynprog on every item list up to length 4/6 over weights {1,2,3,5} and every target, validated by brute force (sub-multiset, sum, minimality, failure iff impossible); all call histories to depth 3/4 on one module instance compared with a freshly loaded module.',
              note='Trusted: itertools and a brute-force subset enumeration. permutk is judged after exhaustion only; exactsum target 0 not judged.'),
+
+ 'C02': dict(sec='2/C02', tech='complete component domains (engine D: all 65536 gmul pairs, all S-box cells, all permutation tables on every single-bit input) + enumerated variable-key / variable-text / variable-tweak families (engine P) against independent references bound to OpenSSL/NESSIE/Skein vectors',
+             text='Every exposed component table is exhausted; for each of the 9 cipher configurations the single-bit key family, 254 repeated-byte keys, patterns and DES weak/semi-weak/parity keys x 3 blocks, 3 keys x the block family and the tweak family are encrypted and decrypted by the real objects and compared with reference ciphers; every Serpent key length, every TDEA keying form, and 80 undefined key/tweak/block sizes (must raise).',
+             note='Trusted: mc/refs/blockciphers.py (AES algebraic, DES tables) validated against 2300 OpenSSL-generated blocks per run (20687 in the committed file), mc/refs/serpent.py (NESSIE), mc/refs/skein.py (Skein 1.3 vectors). Not all 2^|K| keys: families plus complete component domains.'),
+ 'C03': dict(sec='2/C03', tech='complete domains of every exposed component pair (engine D) + enumerated key/block/tweak families (engine P); purely differential oracle f_inv(f(x)) == x == f(f_inv(x))',
+             text='dec(enc(B))==B and enc(dec(B))==B with exact block length over the same key/block/tweak families as C02 for all 9 cipher configurations, and every exposed inverse pair (AES Sbox, ShiftRows, MixColumns; DES IP; Serpent S-boxes, IP/FP, L; rol/ror for every width<=10/12, amount and value; Salsa/ChaCha index maps) on its complete or stated domain. No reference model is involved.',
+             note='Trusted: nothing but the harness. MixColumns is exhausted on single- and two-active-byte states (it is linear), the linear layers on the single-bit family (linear) plus patterns.'),
 }
 
 PENDING = {}
